@@ -49,7 +49,9 @@ Inductive output :=
 | OResp              (* handshake response *)
 | OKeepalive         (* transport message with empty payload *)
 | OData (id : N)     (* transport message carrying packet id *)
-| OTun (id : N).     (* packet id written to the TUN device *)
+| OTun (id : N)      (* packet id written to the TUN device *)
+| OErr (kind : N).   (* a datagram handed to Bind.Send for which Send returned an error
+                        (not transmitted): 0 initiation, 1 response, 2 keepalive, 3 data *)
 
 (* handshake.state *)
 Definition hsZeroed : N := 0.
@@ -390,27 +392,60 @@ Definition recvTransport (now jr jn : N) (d : option N) (s : st) : st * list out
     (s, o1 ++ o2 ++ o3 ++ match d with Some id => [OTun id] | None => [] end)
   end.
 
+(* device.downLocked for this peer: Peer.Stop = isRunning false, timersStop
+   (DelSync of the five timers), ZeroAndFlushAll (keypairs, handshake.Clear,
+   FlushStagedPackets).  handshake.Clear does NOT touch lastSentHandshake, nor
+   does Stop reset the counters: Start does (above). *)
+Definition stop (s : st) : st * list output :=
+  let s := set_active s false in
+  let s := set_tm_retransmit s (t_del (tm_retransmit s)) in
+  let s := set_tm_keepalive s (t_del (tm_keepalive s)) in
+  let s := set_tm_newhs s (t_del (tm_newhs s)) in
+  let s := set_tm_zero s (t_del (tm_zero s)) in
+  let s := set_tm_persist s (t_del (tm_persist s)) in
+  let s := set_kp_cur s None in
+  let s := set_kp_next s None in
+  let s := set_hs s hsZeroed in
+  (flushStagedPackets s, []).
+
+(* What a failing bind turns an emitted datagram into.  A send error changes
+   nothing else in SendHandshakeInitiation / SendHandshakeResponse (the error is
+   logged, timersHandshakeInitiated is still called, callers ignore the result);
+   RoutineSequentialSender skips keepKeyFreshSending after a failed send, which
+   matters only for keys older than RekeyAfterTime (not mirrored: see notes). *)
+Definition fail_of (o : output) : output :=
+  match o with
+  | OInit => OErr 0 | OResp => OErr 1 | OKeepalive => OErr 2 | OData _ => OErr 3
+  | OTun id => OTun id | OErr k => OErr k
+  end.
+
 Inductive input :=
 | IStart                      (* device up: Peer.Start (+ SendKeepalive when persistent keepalive is set) *)
+| IStop                       (* device down: Peer.Stop *)
 | ITun (ids : list N)         (* one TUN read batch routed to the peer *)
 | IResp                       (* valid response to the pending initiation *)
 | IInit                       (* valid fresh initiation from the peer *)
 | IRecv (d : option N)        (* valid transport message: data packet d, or keepalive *)
-| IFire (k : tid).            (* the runtime runs timer k's AfterFunc closure *)
+| IFire (k : tid)             (* the runtime runs timer k's AfterFunc closure *)
+| IFail (i : input).          (* i happens while Bind.Send returns an error for every datagram *)
 
 (* An event: when it runs, what it is, and the two jitter draws (milliseconds). *)
 Record ev := { e_t : N; e_in : input; e_jr : N; e_jn : N }.
 
-Definition step (s : st) (e : ev) : st * list output :=
-  let now := e_t e in let jr := e_jr e in let jn := e_jn e in
-  match e_in e with
+Fixpoint step_in (now jr jn : N) (i : input) (s : st) : st * list output :=
+  match i with
   | IStart => start now jr jn s
+  | IStop => stop s
   | ITun ids => tunRead now jr jn ids s
   | IResp => recvResponse now jr jn s
   | IInit => recvInitiation now s
   | IRecv d => recvTransport now jr jn d s
   | IFire k => fire now jr jn k s
+  | IFail i' => let '(s', o) := step_in now jr jn i' s in (s', map fail_of o)
   end.
+
+Definition step (s : st) (e : ev) : st * list output :=
+  step_in (e_t e) (e_jr e) (e_jn e) (e_in e) s.
 
 (* ------------------------------------------------------------ ideal clock
    The scheduler of the theorems: a pending timer's closure runs exactly at its
